@@ -595,7 +595,7 @@ fn main() {
         ctx.machinery_failure(&format!("counting allocator self-test: {e}"));
     }
     if let Some(v) = ctx.replay_case() {
-        guard::enter(&v.to_string());
+        let _guard_scope = guard::scoped(&v.to_string());
         ctx.finish_replay(catch(|| replay(&v)).unwrap_or_else(|p| Some(format!("panic: {p}"))));
     }
     guard::set_hang_secs(300);
@@ -622,7 +622,7 @@ fn main() {
         ps.extend(progs::depth2(&ls));
         ps.par_iter().for_each(|p| {
             let case = json!({"sys":"program","family":fam,"program":p.show()});
-            guard::enter(&case.to_string());
+            let _guard_scope = guard::scoped(&case.to_string());
             report(case, catch(|| program_dispatch(fam, p)), "signal sources and adaptors: every depth<=2 adaptor tree (map, zip_map, add_amp, mul_amp, scale_amp, offset_amp, per-channel variants, clip_amp, inspect, delay, from_iter, from_interleaved_samples_iter, equilibrium, gen, gen_mut) + take/until_exhausted/into_interleaved_samples", &|| program_dispatch(fam, p).err().map(|e| e.1));
             guard::leave();
         });
@@ -640,7 +640,7 @@ fn main() {
     }
     rings.par_iter().for_each(|&(cap, start, len, kind)| {
         let case = json!({"sys":"ring","cap":cap,"start":start,"len":len,"kind":kind});
-        guard::enter(&case.to_string());
+        let _guard_scope = guard::scoped(&case.to_string());
         report(case, catch(|| ring_case(cap, start, len, kind)), "ring buffers: Bounded (array/&mut, Vec, Box storage; never resized) and Fixed, every operation from every raw state of capacities 1..=4", &|| ring_case(cap, start, len, kind).err().map(|e| e.1));
         guard::leave();
     });
@@ -648,7 +648,7 @@ fn main() {
     let comps = component_cases();
     comps.par_iter().for_each(|(name, f)| {
         let case = json!({"sys":"component","name":name});
-        guard::enter(&case.to_string());
+        let _guard_scope = guard::scoped(&case.to_string());
         report(case, catch(|| f()), name, &|| f().err().map(|e| e.1));
         guard::leave();
     });
@@ -664,14 +664,14 @@ fn main() {
     }
     graphs.par_iter().for_each(|&(n, code)| {
         let case = json!({"sys":"graph","n":n,"code":code});
-        guard::enter(&case.to_string());
+        let _guard_scope = guard::scoped(&case.to_string());
         report(case, catch(|| graph_case(n, code)), "graph processing with stock nodes (Sum, SumBuffers, Pass, Delay, boxed signal node, nested GraphNode, BoxedNode): 2nd/3rd call and first call on another graph of the same size", &|| graph_case(n, code).err().map(|e| e.1));
         guard::leave();
     });
     // graph scale probes
     for (fan_in, chain) in [(8usize, 0usize), (16, 1), (17, 0), (32, 2), (33, 0), (64, 3), (65, 0), (100, 0), (1, 64), (2, 200)] {
         let case = json!({"sys":"wide_graph","fan_in":fan_in,"chain":chain});
-        guard::enter(&case.to_string());
+        let _guard_scope = guard::scoped(&case.to_string());
         report(case, catch(|| wide_graph_case(fan_in, chain)), "graph scale probes: a mixer with 8..100 inputs / chains of up to 200 nodes, repeated process calls", &|| wide_graph_case(fan_in, chain).err().map(|e| e.1));
     }
     ctx.add_evals(au.brackets.load(Relaxed));
